@@ -377,7 +377,14 @@ def sc(cx):
     data = ub[0].args[1]
     if isinstance(data, ast.Name) and d.single(data.id) is not None:
         data = d.single(data.id)
-    cx.check(norm(ub[0].args[0]) == "offset" and norm(data) == "self._dtype.type(value).tobytes()", ub[0], construct=f"update_from_buffer(offset, {short(data)})",
+    dtxt = norm(data)
+    if "self(value)" in dtxt and "__call__" in ms:
+        rr = [r for r in own_nodes(ms["__call__"]) if isinstance(r, ast.Return) and r.value is not None]
+        if len(rr) == 1:
+            pn = param_names(ms["__call__"])
+            conv = norm(rr[0].value).replace(f"({pn[1]})", "(value)") if len(pn) > 1 else norm(rr[0].value)
+            dtxt = dtxt.replace("self(value)", conv)
+    cx.check(norm(ub[0].args[0]) == "offset" and dtxt == "self._dtype.type(value).tobytes()", ub[0], construct=f"update_from_buffer(offset, {short(data)})",
              detail="value converted with self._dtype, its bytes written at offset", bad_detail="written bytes are not self._dtype.type(value).tobytes() at offset", sub="write")
     # array helpers
     atb = ms["_array_to_buffer"]
